@@ -599,6 +599,12 @@ def generate():
     # _doCall: schema check (may raise) strictly before the method gets control
     dc = P.find_def(bro, "Broker._doCall")
     top = strip_doc(dc.body)
+    guard0 = bool(top) and isinstance(top[0], ast.If) and U(top[0].test) == "self.disconnected" and not top[0].orelse \
+        and len(top[0].body) == 1 and isinstance(top[0].body[0], ast.Raise)
+    if not guard0 and any(isinstance(n, ast.Attribute) and n.attr == "disconnected" for n in ast.walk(dc)):
+        raise P.Untranslatable("Broker._doCall mentions self.disconnected in an unrecognised way")
+    out.append("Definition docall_checks_disconnected : bool := %s.   (* Broker._doCall starts with `if self.disconnected: raise ...` *)"
+               % ("true" if guard0 else "false"))
     def first_stmt_with(attr):
         hits = [k for k, st in enumerate(top) if any(isinstance(n, ast.Call) and isinstance(n.func, ast.Attribute) and n.func.attr == attr
                                                       for n in ast.walk(st))]
